@@ -7,7 +7,8 @@
                         (unique, columns, scalars, mappings, tuples, yield_per, partitions, freeze, FrozenResult)
      engine/_result_cy.py  _onerow_getter, _manyrow_getter, _allrows, _iterator_getter, _only_one_row,
                         _unique_strategy, _apply_unique_strategy and the memoisation of these getters
-                        (HasMemoized.memoized_attribute; reset only by @_generative methods).
+                        (HasMemoized.memoized_attribute; reset by the @_generative methods unique, columns,
+                        yield_per).
 
    The DBAPI cursor is the list of rows it has not delivered yet. *)
 From Coq Require Import List ZArith Bool Arith.
@@ -560,10 +561,8 @@ Definition istep (s : istate) (o : op) : istate * outcome :=
       end
   | Unique st =>
       let u := Some (length (hp s), st) in
-      let v1 := match kind v with
-                | VRoot => set_ufs (reset_memo v) u      (* Result.unique is @_generative *)
-                | _ => set_ufs v u                       (* ScalarResult/MappingResult.unique are not *)
-                end in
+      (* Result.unique, ScalarResult.unique and MappingResult.unique are all @_generative *)
+      let v1 := set_ufs (reset_memo v) u in
       (set_cur_view {| fs := fs s; yp := yp s; hp := hp s ++ [[]]; rootv := rootv s; fview := fview s |} v1, OUnit)
   | YieldPer n =>
       ({| fs := yield_per_impl n (fs s); yp := Some n; hp := hp s; rootv := reset_memo (rootv s);
